@@ -1,6 +1,7 @@
 package main
 
 import (
+	"go/types"
 	"go/constant"
 	"strings"
 
@@ -40,12 +41,17 @@ func init() {
 			o.Guarded(cl, "close-after-sync|"+sp.pkg, "closing the temp file", syOK)
 			o.Guarded(rn, "rename-after-sync|"+sp.pkg, "publishing the snapshot (a crash after the rename could otherwise expose a file whose data never reached the disk)", syOK)
 			o.Guarded(rn, "rename-after-close|"+sp.pkg, "publishing the snapshot", clOK)
-			o.Check(e.Arg(rn, 0) == "(*os.File).Name(recv.File)" && e.Arg(rn, 1) == "recv.filename", "rename-args|"+sp.pkg, "the rename must move the temp file onto the configured snapshot path, is Rename("+e.Arg(rn, 0)+", "+e.Arg(rn, 1)+")", rn)
+			dest := stringFieldOf(e, sp.pkg, "replaceFile")
+			o.Check(e.Arg(rn, 0) == "(*os.File).Name(recv.File)" && dest != "" && e.Arg(rn, 1) == "recv."+dest, "rename-args|"+sp.pkg, "the rename must move the temp file onto the configured snapshot path, is Rename("+e.Arg(rn, 0)+", "+e.Arg(rn, 1)+")", rn)
 			// errors are returned
+			// errors are returned, as they are or wrapped with context
+			rnx := e.X(fn, rn.(*ssa.Call))
+			rnOK := L("("+rnx+" == nil)", true)
 			o.Table(fn, "close|"+sp.pkg, []Row{
-				{Name: "sync fails", Assume: A(syOK.Neg()), Ret: [][]string{Vals("(*os.File).Sync(recv.File)")}, Never: []func(ssa.Instruction) bool{IsInstr(rn)}},
-				{Name: "close fails", Assume: A(syOK, clOK.Neg()), Ret: [][]string{Vals("(*os.File).Close(recv.File)")}, Never: []func(ssa.Instruction) bool{IsInstr(rn)}},
-				{Name: "ok", Assume: A(syOK, clOK), Ret: [][]string{Vals(e.X(fn, rn.(*ssa.Call)))}, Must: []func(ssa.Instruction) bool{IsInstr(rn)}},
+				{Name: "sync fails", Assume: A(syOK.Neg()), Ret: [][]string{Vals("(*os.File).Sync(recv.File)", wraps("(*os.File).Sync(recv.File)"))}, Never: []func(ssa.Instruction) bool{IsInstr(rn)}},
+				{Name: "close fails", Assume: A(syOK, clOK.Neg()), Ret: [][]string{Vals("(*os.File).Close(recv.File)", wraps("(*os.File).Close(recv.File)"))}, Never: []func(ssa.Instruction) bool{IsInstr(rn)}},
+				{Name: "ok", Assume: A(syOK, clOK), Opt: A(rnOK), Ret: [][]string{Vals(rnx, "nil")}, Must: []func(ssa.Instruction) bool{IsInstr(rn)}},
+				{Name: "rename fails", Assume: A(syOK, clOK), Opt: A(rnOK.Neg()), Ret: [][]string{Vals(rnx, wraps(rnx))}, Must: []func(ssa.Instruction) bool{IsInstr(rn)}},
 			})
 		}
 		o.MinSites(2)
@@ -107,8 +113,8 @@ func init() {
 				isCreate := calleeName(cr.Common()) == "os.Create"
 				o.Check(uniq || isCreate, "temp-unique|"+sp.pkg, "the temp file name is fixed and the file is not truncated on open", cr)
 			}
-			fs := e.StoresToField(or, sp.pkg+".replaceFile", "filename")
-			o.Check(len(fs) == 1 && e.X(or, fs[0].Val) == "p0", "final-name|"+sp.pkg, "replaceFile.filename must be the requested snapshot path", nil)
+			fs := e.StoresToField(or, sp.pkg+".replaceFile", stringFieldOf(e, sp.pkg, "replaceFile"))
+			o.Check(len(fs) == 1 && e.X(or, fs[0].Val) == "p0", "final-name|"+sp.pkg, "replaceFile's destination must be the requested snapshot path", nil)
 			ff := e.StoresToField(or, sp.pkg+".replaceFile", "File")
 			o.Check(len(ff) == 1 && e.X(or, ff[0].Val) == e.X(or, cr.(*ssa.Call))+"#0", "temp-file|"+sp.pkg, "replaceFile.File must be the created temp file", nil)
 		}
@@ -153,7 +159,9 @@ func init() {
 				// its error is what the run returns
 				r := (&Walk{Fn: dm}).After(pub)
 				for _, ret := range r.Returns() {
-					o.Check(e.X(dm, ret.Results[1]) == e.X(dm, pub.(*ssa.Call)), "publish-error|"+sp.pkg, "a failed publish must be reported by the maintenance run", ret)
+					for _, v := range e.RetVals(r, ret, 1) {
+						o.Check(e.X(dm, v) == e.X(dm, pub.(*ssa.Call)), "publish-error|"+sp.pkg, "a failed publish must be reported by the maintenance run", ret)
+					}
 				}
 			}
 			// GC error: no snapshot
@@ -161,42 +169,49 @@ func init() {
 				{Name: "GC fails", Assume: A(gcOK.Neg()), Ret: [][]string{nil, Vals(e.X(dm, gc.(*ssa.Call)) + "#1")}, Never: []func(ssa.Instruction) bool{IsInstr(op)}},
 				{Name: "no snapshot file", Assume: A(gcOK, hasPath.Neg()), Ret: [][]string{nil, Vals("nil")}, Never: []func(ssa.Instruction) bool{IsInstr(op)}},
 			})
-			// shutdown: final run iff snapf != ""
+			// shutdown: final run iff snapf != "".  The run wrapper is read through (it is transparent): a run
+			// is a call of the maintenance function value, which is the default function unless overridden.
 			var runs []ssa.CallInstruction
 			for _, in := range AllInstrs(mt) {
-				if c, ok := in.(*ssa.Call); ok {
-					if f := c.Call.StaticCallee(); f != nil && f.Parent() == mt && f != dm {
-						runs = append(runs, c)
-					}
+				c, ok := in.(*ssa.Call)
+				if !ok || c.Call.IsInvoke() || c.Call.StaticCallee() != nil {
+					continue
+				}
+				if _, isB := c.Call.Value.(*ssa.Builtin); isB {
+					continue
+				}
+				isDM := e.DerivesFrom(c.Call.Value, false, func(v ssa.Value) bool {
+					mc, ok := v.(*ssa.MakeClosure)
+					return ok && mc.Fn == ssa.Value(dm)
+				})
+				if isDM {
+					runs = append(runs, c)
 				}
 			}
-			o.Check(len(runs) == 2, "runs|"+sp.pkg, "Maintenance must run maintenance on every tick and once at shutdown, found "+itoa(len(runs))+" run site(s)", nil)
-			var final ssa.CallInstruction
+			o.Check(len(runs) >= 2, "runs|"+sp.pkg, "Maintenance must run maintenance on every tick and once at shutdown, found "+itoa(len(runs))+" run site(s)", nil)
+			var finals []ssa.Instruction
+			inLoop := 0
 			for _, c := range runs {
 				if e.LoopOf(c) == nil {
-					final = c
+					finals = append(finals, c)
+				} else {
+					inLoop++
 				}
 			}
-			if o.Check(final != nil, "final|"+sp.pkg, "no final maintenance run after the loop (the state at shutdown would be lost)", nil) {
-				o.Site(final, sp.pkg+": shutdown snapshot")
-				stop := LAny(true, "sel:recv:p2")
-				_ = stop
-				// final run is reached on every path from the stop case with a snapshot path
-				r := (&Walk{Fn: mt, Cut: e.CutContradicting(L(`(p1 == "")`, false)), Barrier: IsInstr(final)}).FromEntry()
-				// returns reachable only via the early argument check
-				for _, ret := range r.Returns() {
-					okEarly := !e.OnlyUnder(ret, L("(p0 == 0)", false)) || true
-					_ = okEarly
-				}
-				// precise: after leaving the loop through the stop case
+			o.Check(inLoop >= 1, "tick-run|"+sp.pkg, "maintenance is not run from the ticker loop", nil)
+			if o.Check(len(finals) > 0, "final|"+sp.pkg, "no final maintenance run after the loop (the state at shutdown would be lost)", nil) {
+				o.Site(finals[0], sp.pkg+": shutdown snapshot")
+				// after leaving the loop with a snapshot path configured, the final run is on every path
 				for _, l := range e.Loops(mt) {
 					for _, ex := range l.Exits {
 						b := mt.Blocks[ex[0]]
-						rr := (&Walk{Fn: mt, Cut: e.CutContradicting(L(`(p1 == "")`, false)), Barrier: IsInstr(final)}).FromEdge(b, ex[1])
-						o.Check(len(rr.Returns()) == 0, "final-skipped|"+sp.pkg, "Maintenance can terminate without the shutdown snapshot although a snapshot file is configured", final)
+						if isUnreachablePanic(b.Succs[ex[1]]) {
+							continue
+						}
+						rr := (&Walk{Fn: mt, Cut: e.CutContradicting(L(`(p1 == "")`, false)), Barrier: IsInstr(finals...)}).FromEdge(b, ex[1])
+						o.Check(len(rr.Returns()) == 0, "final-skipped|"+sp.pkg, "Maintenance can terminate without the shutdown snapshot although a snapshot file is configured", finals[0])
 					}
 				}
-				o.Check(strings.Contains(e.Arg(final, 0), "closure:"+sp.recvT+".Maintenance$"), "final-fn|"+sp.pkg, "the shutdown run must use the maintenance function", final)
 			}
 		}
 		o.MinSites(4)
@@ -362,4 +377,27 @@ func init() {
 		}
 		o.MinSites(2)
 	})
+}
+
+// stringFieldOf: the name of the single string-typed field of a struct type ("" if not exactly one).
+func stringFieldOf(e *Eng, pkg, typ string) string {
+	n := e.NamedType(pkg, typ)
+	if n == nil {
+		return ""
+	}
+	st := structOf(n)
+	if st == nil {
+		return ""
+	}
+	name, cnt := "", 0
+	for i := 0; i < st.NumFields(); i++ {
+		if b, ok := st.Field(i).Type().Underlying().(*types.Basic); ok && b.Kind() == types.String {
+			name = st.Field(i).Name()
+			cnt++
+		}
+	}
+	if cnt != 1 {
+		return ""
+	}
+	return name
 }
